@@ -1,6 +1,9 @@
 import LoraVerif.Lemmas.PhyLemmas
 import LoraVerif.Lemmas.PhyEffect127
 import LoraVerif.Lemmas.PhyEffectMod127
+import LoraVerif.Lemmas.PhyEffectPkt127
+import LoraVerif.Lemmas.PhyEffectTx127
+import LoraVerif.Lemmas.PhyEffectFifo127
 /-!
 # C13 — the SX126x / SX127x drivers emit the same SPI bytes as Semtech's reference driver
 
@@ -326,7 +329,10 @@ afterwards (`(trace p c).2.1.regs`).  Proved here: RF frequency (after the round
 Proved in `Lemmas/PhyEffect127.lean` / `Lemmas/PhyEffectMod127.lean` (same namespace `C13`): standby,
 sleep, the symbol-count timeout (all 10-bit values, the other bits preserved) and the RX start that
 uses it, the modulation parameters of SX1276 and SX1272 (all SF × BW × CR × LDRO, every prior register
-content, errata paths) on the bits `eff_mask` compares.  Everything is also compared three-way
+content, errata paths) on the bits `eff_mask` compares; in `Lemmas/PhyEffectPkt127.lean`,
+`PhyEffectTx127.lean`, `PhyEffectFifo127.lean`: packet parameters (both variants, all flags / lengths /
+preambles), the IRQ mask of every mode, TX power and ramp for both PA pins and every requested power,
+the FIFO write of every payload.  Everything is also compared three-way
 (incl. the compiled C) by the correspondence suite, see `props/C13.json`. -/
 
 /-- the driver's frequency word (rounded to nearest since the fix) is the reference's, for every `u32` frequency -/
@@ -378,6 +384,13 @@ example : ∃ p, S127.modulation true (sfNum127 ._7) (Sx127x.hzOf ._500KHz) (crD
 /-- the compared bits are exactly those of `eff_mask("modparams", ·)` in harness/src/c13b.rs -/
 example : (modMask 0x1d, modMask 0x1e, modMask 0x37, modMask 0x26, modMask 0x31, modMask 0x2f, modMask 0x36)
     = (0xff, 0xff, 0xff, 0xfb, 0x07, 0, 0) := by decide
+
+/-- the masks of the packet-parameter and TX-power theorems are `eff_mask` of harness/src/c13b.rs -/
+example : (pktMask true 0x1d, pktMask true 0x22, pktMask false 0x22, pktMask true 0x33) = (0xff, 0xff, 0, 0) := by decide
+example : (txMask ⟨.sx1276, false, false, false⟩ 0x09, txMask ⟨.sx1276, false, true, false⟩ 0x09, txMask ⟨.sx1272, false, false, false⟩ 0x5a,
+    txMask ⟨.sx1272, false, false, false⟩ 0x4d, txMask ⟨.sx1276, false, true, false⟩ 0x0a) = (0xff, 0x8f, 0x07, 0, 0x0f) := by decide
+example : (refIrqOf (some .transmit), refIrqOf (some (.receive .continuous)), refIrqOf (some .cad), refIrqOf none) = (1, 0x252, 0x180, 0) := by
+  decide
 
 /-! ## from traces to what the interpreter records -/
 
